@@ -24,20 +24,25 @@ HARNESS = {"src": "harness/c01.cpp", "flags": ["-DFCPPT_HAVE_GCC_DEMANGLE"], "re
     "libs/filesystem/src/filesystem/create_directory.cpp", "libs/filesystem/src/filesystem/create_directories_recursive.cpp",
     "libs/filesystem/src/filesystem/directory_range.cpp", "libs/filesystem/src/filesystem/recursive_directory_range.cpp",
     "libs/filesystem/src/filesystem/make_directory_range.cpp", "libs/filesystem/src/filesystem/make_recursive_directory_range.cpp"]}
-TIE = ("scalar registry: translated from /repo on every run (as C06); containers / strings / arguments / files: hand-written models with "
-       "bounds-checked reads + differential correspondence; the harness is the C01 observation itself (ASan+UBSan+_GLIBCXX_ASSERTIONS, "
-       "catch(...), per-line watchdog, exact-size heap buffers behind every string_view)")
-RULE = ("container helpers: all lists over {0,1,2} up to length 4 with every index 0..5; is_flag / enum from_string / extract: all strings up to "
-        "length 4 (quick) / 5 (thorough) over a 4-letter alphabet containing '-'; next_arg: all argument vectors up to length 3 (quick) / 4 "
-        "(thorough) over 7 tokens x 4 option-name contexts; read_chars: all (length, count) up to 6 x 8; paths over {a,.,/} up to length 5; "
-        "file_size on regular/empty/large file, directory, missing path, dangling and valid symlink, '.', ''; scalar: lattice and 8-bit ranges "
-        "of every translated function. Non-trivial = any op other than the empty-container case.")
+TIE = ("scalar registry: translated from /repo on every run (as C06); containers / strings / arguments / streams / paths / files / environment: "
+       "hand-written models with bounds-checked reads + differential correspondence; the harness is the C01 observation itself "
+       "(ASan+UBSan+_GLIBCXX_ASSERTIONS, catch(...), per-line watchdog, exact-size heap buffers with poisoned non-NUL slack behind every string_view, "
+       "containers of heap strings, streams in every state, every kind of path)")
+RULE = ("container helpers: all lists over {0,1,2} up to length 4 (5) with every index 0..5 and indices up to 2^64-1, on vector/deque/string/heap-string "
+        "containers; casts on every (target, dynamic class); is_flag / flag_name / enum from_string: all strings up to length 4 (6) over a 4-letter alphabet "
+        "containing '-'; next_arg: all argument vectors up to length 3 (5) over 7 tokens x 4 option-name contexts; read_chars / stream_to_string / io::get / peek / "
+        "read / extract / write_chars: every stream kind (preset eof/fail/bad bit, 1- and 2-character get area, file, directory, throwing streambuf, null "
+        "streambuf, limited room) x every length up to 6 x every count up to 8, one and two reads; file_size / open / create_directory / directory ranges on 24 "
+        "kinds of path; the pure path helpers with their values on every pathname over {a . /} up to length 5 (7) and all pairs up to 3 (4); getenv, args, "
+        "strerror, gmtime/localtime on the time_t lattice, type_name, system, extract_from_string values under a grouping global locale; scalar: lattice and "
+        "8-bit ranges of every translated function. Non-trivial = any op other than the empty-container case.")
 ASSUMPTIONS = [
-    "std::vector/deque/map, std::filesystem and std::istream are modelled by their specification (List, oracle argument, list of remaining bytes)",
-    "filesystem::remove_extension and extract_from_string are observed only for normal return (their value semantics belong to std:: and C15)",
+    "std::vector/deque/map, std::istream/ostream (state machine incl. a streambuf that throws), std::filesystem::path (libstdc++ POSIX parser) are modelled by "
+    "validated models; the operating system, glibc gmtime_r, the demangler and /bin/sh are oracle tables in the driver",
+    "extract_from_string / io::extract values come from the C15 text model (num_get in the classic locale)",
     "memory safety of template instantiations and object lifetimes: sanitizer verdict on the exercised inputs (a runtime witness, not a proof)",
 ]
-TRUSTED = ["harness/c01.cpp (+ c06.cpp tables)", "tools/cxx2lean.py for the scalar part"]
+TRUSTED = ["harness/c01.cpp, harness/c01_env.cpp (+ c06.cpp tables)", "tools/cxx2lean.py for the scalar part", "the oracle tables of Drv/C01.lean"]
 
 regenerate = c06.regenerate
 
@@ -121,7 +126,7 @@ def batches(rng, tier):
                 note="at_optional (vector/deque/const/string/heap strings, indices up to 2^64-1), maybe_front/back, pop_back/pop_front (also containers of heap "
                      "strings: a read after the pop is a use-after-free), array::from_range (lvalue/deque/rvalue), runtime_index (u8/u32/u64 index), "
                      "find_opt/find_opt_mapped/find_opt_iterator (map/const/unordered), the five dynamic casts on every (target, dynamic class)")
-    n = 5 if thorough else 4
+    n = 6 if thorough else 4
     ops = [f"isflag s:{w}" for w in words("-a=b", n)]
     ops += [f"enumfs s:{w}" for w in words("fobar", 4 if not thorough else 5)] + [f"enumfs s:{w}" for w in ("foo", "bar", "baz", "fo", "foobar", "foobarx", "fooba", "")]
     ops += [f"flagname {k} s:{w}" for k in ("short", "long") for w in words("-a=", 3 if not thorough else 4)]
@@ -130,7 +135,7 @@ def batches(rng, tier):
     ctxs = ["_", "opt:l", "a:s,opt:l", "x:s,:s"]
     vecs = [[]]
     frontier = [[]]
-    for _ in range(4 if thorough else 3):
+    for _ in range(5 if thorough else 3):
         frontier = [v + [t] for v in frontier for t in toks]
         vecs += frontier
     ops = [f"nextarg {','.join(v) if v else '_'} {c}" for v in vecs for c in ctxs]
@@ -266,17 +271,20 @@ def batches(rng, tier):
 search = c06.search
 
 MANIFEST = {
-    "level_text": ("Machine-checked proof (Lean 4) of totality: for the container/string/argument helpers (at_optional, maybe_front/back, pop_back/front, "
-                   "find_opt, array::from_range, runtime_index, enum from_string, options is_flag and next_arg, read_chars, file_size) models "
-                   "with bounds-checked reads never reach a Fault (no out-of-bounds read, terminate) for every input; for the scalar registry "
-                   "the definitions translated from the source on every run return .ok whenever the exact result is representable "
-                   "(corollaries of the C06 theorems). The harness is the runtime observation the property names: sanitizers, catch(...), "
-                   "watchdog, exact-size buffers; its results must equal the models' on exhaustive small domains."),
+    "level_text": ("Machine-checked proof (Lean 4) of totality: models with bounds-checked reads never reach a Fault (no out-of-bounds access, no "
+                   "uninitialised read, terminate, only the documented exception) for every input — containers (at_optional, maybe_front/back, pop_back/front, "
+                   "find_opt, array::from_range, runtime_index), strings and arguments (is_flag, flag_name, enum from_string, next_arg = its structural "
+                   "specification, args/args_from_second, getenv), streams in any state (read_chars with the buffer it fills, stream_to_string, io::get/peek/read, "
+                   "write_chars), paths (extension_without_dot, stem/extension, strip_prefix inside its precondition), file-system and time helpers over an OS "
+                   "oracle (file_size, create_directory, directory ranges, open_exn, gmtime); for the scalar registry EVERY instantiation translated from the "
+                   "source on every run returns .ok whenever the exact result is representable (corollaries of the C06 theorems). The harness is the runtime "
+                   "observation the property names: sanitizers, catch(...), watchdog, exact-size buffers; its results must equal the models' on exhaustive small "
+                   "domains of values, stream states and path kinds."),
     "level_note": ("PARTIAL in the sense of DESIGN.md: memory safety of the template instantiations, object lifetimes, allocator and OS behaviour "
-                   "are runtime facts the models cannot exhibit - the sanitizer verdict on the exercised inputs is their only witness. "
-                   "options::parse, parse::phrase_parse_string and impl::codecvt are covered by C03, C02/C12 and C15. The known finding "
-                   "'options::many around a non-consuming parser never terminates' is reported under C03. Trusted: Lean kernel + "
-                   "propext/Classical.choice/Quot.sound, translator, harness."),
+                   "are runtime facts the models cannot exhibit - the sanitizer verdict on the exercised inputs is their only witness; libstdc++ / glibc / "
+                   "kernel behaviour enters as validated models and oracle tables. options::parse, parse::phrase_parse_string and impl::codecvt are covered "
+                   "by C03, C02/C12 and C15. The known finding 'options::many around a non-consuming parser never terminates' is reported under C03. "
+                   "Trusted: Lean kernel + propext/Classical.choice/Quot.sound, translator, harness, oracle tables."),
     "technique": "Lean 4 totality proofs over translated + hand-written models, differential correspondence under ASan/UBSan/watchdog",
     "design_ref": "DESIGN.md §5 C01",
 }
